@@ -9,7 +9,15 @@ Configurations: raster and vector objects, cache on and off; vector objects with
 differs strongly from row to row (1-4 degree rows between 60 and 88 degrees N or S), at construction or by
 set_transform; sub-basin queries (by area with thresholds of a few cells of the current georeference, Pfafstetter with
 the default / the object's km2 / a user upstream-area map) placed before and after queries that memoise the
-main-upstream cells (upstream path, classic stream order, moving average, idxs_us_main, main_upstream())."""
+main-upstream cells (upstream path, classic stream order, moving average, idxs_us_main, main_upstream()).
+
+add_pits is drawn in all its argument variants: start cells by `idxs` or (rasters) by `xy` (points inside the cells, in
+the georeference the object has at that point of the history), with and without a `streams=` mask the start cells are
+snapped downstream to (upstream cell count >= k, downstream-closed, random, all-True / all-False; start cells on and off
+the mask). The network after the call is compared with the harness' own snap (walk downstream to the first True cell or
+pit). After every mutator the probe set also holds basins() (rasters) and, on a state-sharing clone of the object and of
+the twin, the explicit cell order of both methods with the node count, upstream area and basins derived from it."""
+import copy
 import io
 import json
 import math
@@ -31,6 +39,10 @@ RULE = ("random histories (quick: length <= 12, thorough: <= 30; plus all histor
         "built / moved to geographic grids of 1-4 degree rows between 60 and 88 degrees N or S (cell area varies "
         "strongly with the row), sub-basin queries (area thresholds at the scale of the cell area, Pfafstetter with "
         "own / km2 / user upstream-area maps) before and after queries that memoise the main-upstream cells; "
+        "add_pits by idxs / xy (raster), with and without a streams= mask (upstream count >= k, downstream-closed, "
+        "random, all-True/False; start cells on and off the mask), network after the call checked against the harness' "
+        "own downstream snap; probes after a mutator include basins() and both explicit cell orders (on a clone) with "
+        "the node count / upstream area / basins derived from them; "
         "non-trivial = history with >= 1 mutator or >= 2 queries sharing a cache key; distinct = SHA-1 of "
         "(class, network, history)")
 
@@ -166,7 +178,7 @@ def gen_op(rng, o, n, valid, force=None):
         queries += ["basins", "subbasins_streamorder", "subbasins_area", "upstream_area_unit", "stream_distance",
                     "snap", "hand", "streams", "outflow_idxs", "subgrid_rivlen", "ucat_area", "to_array_nextxy",
                     "subbasins_pfafstetter"]
-    mutators = ["order_cells", "add_pits", "repair_loops", "dumpload"] + (["set_transform"] if raster else [])
+    mutators = ["order_cells", "add_pits", "add_pits", "repair_loops", "dumpload"] + (["set_transform"] if raster else [])
     if force is not None:
         name = force
     elif rng.random() < 0.28:
@@ -245,6 +257,19 @@ def gen_op(rng, o, n, valid, force=None):
         a["method"] = rng.choice(["sort", "walk"])
     elif name == "add_pits":
         a["idxs"] = [rng.choice(valid) for _ in range(rng.randint(1, 2))]
+        if rng.random() < (0.65 if raster else 0.35):
+            # pits snapped downstream to the first cell of a stream mask (drawn on the network the object was built
+            # with; after earlier mutators it is just another mask); start cells on and off the mask
+            ds0 = canon_idx(o.real.idxs_ds, n)
+            m = stream_mask(rng, ds0, n, valid)
+            a["streams"] = m
+            off = [i for i in valid if not m[i] and ds0[i] != i]
+            if off and rng.random() < 0.7:
+                a["idxs"][0] = rng.choice(off)
+        if raster and rng.random() < 0.35:
+            # by coordinates: a point inside each start cell (fractions of the cell size from its first corner)
+            a["by"] = "xy"
+            a["frac"] = [[rng.choice([0.25, 0.5, 0.5, 0.75]), rng.choice([0.25, 0.5, 0.5, 0.75])] for _ in a["idxs"]]
     elif name == "set_transform":
         res = rng.choice([(1, -1), (2, -2), (3, -4), (0.5, -0.25), (10, -10)])
         a["transform"] = [res[0], 0, rng.choice([0, 5]), 0, res[1], rng.choice([0, 40])]
@@ -268,6 +293,64 @@ def gen_op(rng, o, n, valid, force=None):
             a["transform"] = [t.a, t.b, t.c, t.d, t.e, t.f]
             a["latlon"] = (not o.latlon) and abs(t.e) <= 4
     return name, a, ("mutator" if name in mutators else "query")
+
+
+def _walk_down(ds, n, i):
+    """cells from i downstream (i included) up to a pit, a missing cell or n steps; second value: ended regularly"""
+    out, j = [i], i
+    for _ in range(n + 1):
+        d = ds[j]
+        if d == j or d == n:
+            return out, True
+        j = d
+        out.append(j)
+    return out, False
+
+
+def stream_mask(rng, ds, n, valid):
+    """boolean `streams` masks for add_pits"""
+    u = rng.random()
+    if u < 0.4:
+        # cells with at least k cells upstream (themselves included)
+        cnt = [0] * n
+        for i in valid:
+            for j in set(_walk_down(ds, n, i)[0]):
+                cnt[j] += 1
+        k = rng.choice([2, 2, 3, 4, 6])
+        return [bool(ds[i] != n and cnt[i] >= k) for i in range(n)]
+    if u < 0.75:
+        # downstream-closed: everything downstream of a few cells
+        m = [False] * n
+        for i in rng.sample(valid, min(len(valid), rng.randint(1, 3))):
+            for j in _walk_down(ds, n, i)[0]:
+                m[j] = True
+        return m
+    if u < 0.9:
+        return [bool(rng.random() < 0.3) for _ in range(n)]
+    return [rng.random() < 0.5] * n
+
+
+def own_snap(ds, n, mask, idxs):
+    """harness' own snap: first cell downstream of the start cell (itself included) that is True in mask or a pit;
+    None if a walk does not end (loops: outside the documented domain)"""
+    out = []
+    for i in idxs:
+        cells, ended = _walk_down(ds, n, i)
+        hit = next((j for j in cells if mask[j]), None)
+        if hit is None:
+            if not ended:
+                return None
+            hit = cells[-1]
+        out.append(hit)
+    return out
+
+
+def clone(f):
+    """another object holding the same state (arrays shared, own memo dict): explicit orders are probed on it so
+    that the probe does not become part of the history"""
+    g = copy.copy(f)
+    g._cached = dict(f._cached)
+    return g
 
 
 def own_upsum(f, weights):
@@ -365,9 +448,46 @@ def apply(o, name, a):
         f.order_cells(a["method"])
         o.order = a["method"]
         return "ok"
+    if name == "seq_probe":
+        g = clone(f)
+        g.order_cells(a["method"])
+        out = (g.idxs_seq, g.nnodes, g.upstream_area())
+        if o.cls == "raster":
+            out += (g.basins(),)
+        return _canon(out)
     if name == "add_pits":
-        f.add_pits(idxs=np.array(a["idxs"]))
+        o.netfail = None
+        ds0 = canon_idx(f.idxs_ds, n)
+        kw = {}
+        if a.get("by") == "xy":
+            t, ncol = o.transform, o.shape[1]
+            pts = [(i % ncol + fr[0], i // ncol + fr[1]) for i, fr in zip(a["idxs"], a["frac"])]
+            kw["xy"] = (np.array([t.a * c + t.b * r + t.c for c, r in pts], dtype=np.float64),
+                        np.array([t.d * c + t.e * r + t.f for c, r in pts], dtype=np.float64))
+        else:
+            kw["idxs"] = np.array(a["idxs"])
+        want = list(a["idxs"])
+        if a.get("streams") is not None:
+            kw["streams"] = arr(a["streams"], bool)
+            want = own_snap(ds0, n, a["streams"], a["idxs"])
+        tag = "add_pits" + ("-xy" if "xy" in kw else "") + ("-streams" if "streams" in kw else "") + ":" + o.cls
+        try:
+            f.add_pits(**kw)
+        except Exception as e:  # noqa: BLE001
+            _obs(f"{tag}:raises-{exc_class(e)}")
+            raise
         o.order = None
+        if want is not None:
+            if "streams" in kw:
+                _obs(tag + (":start-cell-moved" if want != list(a["idxs"]) else ":no-start-cell-moved"))
+            exp = list(ds0)
+            for i in want:
+                exp[i] = i
+            ds1 = canon_idx(f.idxs_ds, n)
+            if ds1 != exp:
+                bad = [i for i in range(n) if ds1[i] != exp[i]]
+                o.netfail = (f"after {tag.split(':')[0]} the network differs from the old network with pits at the snapped start "
+                             f"cells {want}: cells {bad[:8]} point to {[ds1[i] for i in bad[:8]]}, expected {[exp[i] for i in bad[:8]]}")
         return "ok"
     if name == "repair_loops":
         before = f.idxs_ds.copy()
@@ -399,6 +519,10 @@ def apply(o, name, a):
                     o.area = None   # model the code that exists: the loaded object holds no area
         return "ok"
     raise KeyError(name)
+
+
+def _obs(k):
+    OBSERVED[k] = OBSERVED.get(k, 0) + 1
 
 
 def safe_apply(o, name, a):
@@ -436,7 +560,10 @@ def run_history(spec, table=None):
                       ("stream_order", {"type": "strahler", "mask": None}), ("upstream_area", {})]
             if spec["cls"] == "raster":
                 probes.append(("upstream_area_unit", {"unit": "m2"}))
-                probes += [("georef", {})]
+                probes += [("georef", {}), ("basins", {"idxs": None})]
+            probes += [("idxs_seq", {}), ("seq_probe", {"method": "walk"}), ("seq_probe", {"method": "sort"})]
+            if name == "add_pits" and getattr(o, "netfail", None):
+                return {"step": step, "op": name, "what": o.netfail}
             for pn, pa in probes:
                 g1, g2 = safe_apply(o, pn, pa), safe_apply(t, pn, pa)
                 if g1 != g2:
@@ -630,6 +757,12 @@ def run(ctx):
         dict(base, ds=[0, 2, 1, 2, 3, 4], ops=[("nnodes", {}), ("idxs_seq", {}), ("repair_loops", {}), ("nnodes", {}), ("rank", {})]),
         dict(base, cache=False, ops=[("rank", {}), ("stream_order", {"type": "strahler", "mask": None}), ("distnc", {}), ("idxs_us_main", {})]),
         dict(base, ops=[("order_cells", {"method": "sort"}), ("dem_adjust", {"elevtn": [3, 1, 2, 5, 0, 4]}), ("dumpload", {}), ("dem_adjust", {"elevtn": [3, 1, 2, 5, 0, 4]})]),
+        # add_pits with a stream mask: start cells off the mask (snapped) and on it, by idxs and by xy; vector object
+        dict(base, ops=[("upstream_area", {}), ("order_cells", {"method": "walk"}), ("add_pits", {"idxs": [3, 1], "streams": [False, True, True, False, False, True]}),
+                        ("basins", {"idxs": None}), ("idxs_seq", {})]),
+        dict(base, transform=[2, 0, 10, 0, -4, 30], ops=[("rank", {}), ("add_pits", {"idxs": [0, 4], "by": "xy", "frac": [[0.25, 0.75], [0.5, 0.5]],
+                                                                     "streams": [False, True, False, False, False, True]}), ("nnodes", {})]),
+        dict(base, cls="vector", shape=[6], ops=[("rank", {}), ("add_pits", {"idxs": [3], "streams": [False, False, True, False, False, True]}), ("idxs_pit", {})]),
     ]
     for k in range(nhist):
         specs.append(gen_spec(rng, ctx.tier, maxlen, force=STRATA[k] if k < len(STRATA) else None))
@@ -646,6 +779,9 @@ def run(ctx):
             ctx.count("raster-built-geographic-60-88deg")
         for x in names:
             ctx.count("op:" + x)
+        for x, xa in ops:
+            if x == "add_pits":
+                ctx.count("add_pits:" + ("xy" if xa.get("by") == "xy" else "idxs") + ("+streams" if xa.get("streams") is not None else ""))
         ctx.evaluations += 1
         if nontriv:
             import hashlib
